@@ -218,9 +218,134 @@ def directed_programs(ctx, bad, nvec):
             out.append({"key": key, "make": make, "fn": "f", "vecs": int_vectors([t, t], prng, nvec), "ext": [],
                         "src": "engines/c05.py directed_programs: %s of %d live %s values" % (op, n, t)})
 
+    # displacement boundaries: accesses at base + d for d around the disp8 / disp32 switch (-129..-127, 127..129) through
+    # a base register; every store lands in a global whose final bytes are observed, so a mis-encoded displacement shows
+    def disp_addr(b, base, d, k):
+        if d >= 0:
+            return b.off(base, d)
+        if k % 2:        # base + (-d) as a wrapped pointer constant, or base - d
+            o = b.e(ir.Const(d, b.nm("o"), ir.ptr))
+            return b.e(ir.Binop(base, "+", o, b.nm("ea"), ir.ptr))
+        o = b.e(ir.Const(-d, b.nm("o"), ir.ptr))
+        return b.e(ir.Binop(base, "-", o, b.nm("ea"), ir.ptr))
+
+    for t in ("u8", "i16", "u32", "i64"):
+        def make(t=t):
+            b = B("f", "u64", ["u64", t])
+            a, v = b.p
+            g = b.glob("gbuf", 640, bytes((7 * k + 3) % 251 for k in range(640)))
+            idx = b.bin(b.bin(a, "&", b.c(1, "u64"), "u64"), "*", b.c(8, "u64"), "u64")
+            base = b.e(ir.Binop(g, "+", b.cast(b.bin(idx, "+", b.c(320, "u64"), "u64"), "ptr"), b.nm("base"), ir.ptr))
+            acc = b.c(0, "u64")
+            offs = [-136, -129, -128, -127, -120, 120, 127, 128, 129, 136, 255, 256]
+            for k, d in enumerate(offs):
+                addr = disp_addr(b, base, d, k)
+                b.store(b.bin(v, "+", b.c(k + 1, t), t), addr)
+            for k, d in enumerate(offs):
+                addr = disp_addr(b, base, d, k)
+                acc = b.bin(b.bin(acc, "*", b.c(131, "u64"), "u64"), "+", b.cast(b.load(addr, t), "u64"), "u64")
+            b.ret(acc)
+            return b.m
+
+        key = "dir.disp.%s" % t
+        prng = random.Random(key)
+        out.append({"key": key, "make": make, "fn": "f", "vecs": int_vectors(["u64", t], prng, nvec), "ext": [],
+                    "src": "engines/c05.py directed_programs: %s stores/loads at base +- {120..136, 255, 256}" % t})
+
+    # more arguments than fit below 128(%rbp): the callee reads memory arguments at 16(%rbp) .. 152(%rbp)
+    def make_many():
+        n = 24
+        h = B("h", "i64", ["i64"] * n)
+        acc = h.c(0, "i64")
+        for k, p_ in enumerate(h.p):
+            acc = h.bin(h.bin(acc, "*", h.c(3, "i64"), "i64"), "+", p_, "i64")
+        h.ret(acc)
+        b = B("f", "i64", ["i64"], module=h.m)
+        args = [b.bin(b.p[0], "+", b.c(1000 * k + 1, "i64"), "i64") for k in range(n)]
+        r = b.e(ir.FunctionCall(h.f, args, b.nm("call"), ir.i64))
+        b.ret(r)
+        return b.m
+
+    out.append({"key": "dir.manyargs.24", "make": make_many, "fn": "f", "vecs": int_vectors(["i64"], random.Random("many"), nvec),
+                "ext": [], "src": "engines/c05.py directed_programs: internal call with 24 i64 arguments (18 in memory)"})
+
+    # loop whose exit test sits in a latch block distinct from the header and compares the OLD value of the header's phi
+    for t in ("i32", "u8", "i64"):
+        def make(t=t):
+            b = B("f", t, [t, t])
+            y, z = b.p
+            start = b.bin(y, "&", b.c(3, t), t)
+            head, then_b, else_b, latch, done = b.block("head"), b.block("then"), b.block("else"), b.block("latch"), b.block("done")
+            entry = b.cur
+            b.jmp(head)
+            b.at(head)
+            p_ = b.phi(t, [])
+            acc = b.phi(t, [])
+            b.cj(b.bin(p_, "&", b.c(1, t), t), "==", b.c(0, t), then_b, else_b)
+            b.at(then_b)
+            a1 = b.bin(acc, "+", b.bin(p_, "*" if ("binop", "*", t) not in bad else "|", b.c(3, t), t), t)
+            b.jmp(latch)
+            b.at(else_b)
+            a2 = b.bin(acc, "^", b.bin(p_, "+", b.c(7, t), t), t)
+            b.jmp(latch)
+            b.at(latch)
+            accn = b.phi(t, [(then_b, a1), (else_b, a2)])
+            n = b.bin(p_, "+", b.c(1, t), t)
+            b.cj(p_, "<", b.c(5, t), head, done)           # tests the value of this iteration, after n was computed
+            p_.set_incoming(entry, start)
+            p_.set_incoming(latch, n)
+            acc.set_incoming(entry, z)
+            acc.set_incoming(latch, accn)
+            b.at(done)
+            b.ret(b.bin(b.bin(accn, "<<", b.c(3, t), t), "+", n, t))
+            return b.m
+
+        key = "dir.latchphi.%s" % t
+        prng = random.Random(key)
+        out.append({"key": key, "make": make, "fn": "f", "vecs": int_vectors([t, t], prng, nvec), "ext": [],
+                    "src": "engines/c05.py directed_programs: multi-block loop, latch tests the header phi (%s)" % t})
+
+    # call through a function pointer with several values live across it; the callees call an external function
+    # (compiled by gcc), so every caller-saved register is really overwritten
+    def make_fp():
+        t = "i64"
+        x = ir.ExternalFunction("ext_f", [ir.i32], ir.i32)
+        h1 = B("h1", t, [t])
+        h1.m.add_external(x)
+        r1 = h1.e(ir.FunctionCall(x, [h1.cast(h1.p[0], "i32")], h1.nm("xc"), ir.i32))
+        h1.ret(h1.bin(h1.cast(r1, t), "-", h1.p[0], t))
+        h2 = B("h2", t, [t], module=h1.m)
+        r2 = h2.e(ir.FunctionCall(x, [h2.cast(h2.bin(h2.p[0], "+", h2.c(1, t), t), "i32")], h2.nm("xc"), ir.i32))
+        h2.ret(h2.bin(h2.cast(r2, t), "^", h2.p[0], t))
+        b = B("f", t, [t, t], module=h1.m)
+        a, c = b.p
+        yes, no, join = b.block("yes"), b.block("no"), b.block("join")
+        live = [b.bin(b.bin(a, "*", b.c(11 + 2 * k, t), t), "+", b.bin(c, "*", b.c(k + 1, t), t), t) for k in range(8)]
+        b.cj(a, "<", c, yes, no)
+        b.at(yes).jmp(join)
+        b.at(no).jmp(join)
+        b.at(join)
+        fp = b.ir.Phi(b.nm("fp"), ir.ptr)
+        join.add_instruction(fp)
+        fp.set_incoming(yes, h1.f)
+        fp.set_incoming(no, h2.f)
+        r = b.e(ir.FunctionCall(fp, [a], b.nm("call"), ir.i64))
+        acc = r
+        for k, v in enumerate(live):       # each live value is used twice after the call
+            acc = b.bin(b.bin(acc, "*", b.c(7, t), t), "+", v, t)
+        for k, v in enumerate(live):
+            acc = b.bin(acc, "^", b.bin(v, "+", b.c(k, t), t), t)
+        b.ret(acc)
+        return b.m
+
+    out.append({"key": "dir.fnptr.live", "make": make_fp, "fn": "f", "vecs": int_vectors(["i64", "i64"], random.Random("fp"), nvec),
+                "ext": [{"name": "ext_f", "rets": [project_ir.limbs(11, 4), project_ir.limbs(-3, 4)]}],
+                "src": "engines/c05.py directed_programs: indirect call (phi of two functions) with 8 values live across it"})
+
     # frame layout: stack slots of mixed sizes and alignments, all live across an external call, then read back
     for order in (("u8", "u32", "u16", "u64", "u8", "u64", "u16", "u32"), ("u64", "u8", "u8", "u16", "u32", "u8", "u64"),
-                  ("u16", "u8", "u32", "u8", "u64")):
+                  ("u16", "u8", "u32", "u8", "u64"),
+                  ("u64",) * 15 + ("u8", "u64", "u16", "u64", "u8", "u32", "u64")):       # frame offsets through -128
         def make(order=order):
             b = B("f", "u64", ["u64"])
             x = ir.ExternalFunction("ext_f", [ir.i32], ir.i32)
@@ -239,7 +364,7 @@ def directed_programs(ctx, bad, nvec):
             b.ret(acc)
             return b.m
 
-        key = "dir.frame.%s" % "-".join(order)
+        key = "dir.frame.%s" % ("-".join(order) if len(order) < 10 else "big%d" % len(order))
         prng = random.Random(key)
         out.append({"key": key, "make": make, "fn": "f", "vecs": int_vectors(["u64"], prng, nvec),
                     "ext": [{"name": "ext_f", "rets": [project_ir.limbs(7, 4)]}],
@@ -472,7 +597,9 @@ class Engine:
         if ctx.only is not None:
             thorough = ctx.only.get("tier", ctx.tier) == "thorough"
         if part in ("", "riscv"):
-            run_riscv(ctx, thorough, only if ctx.only is not None else None)
+            from engines import c05rv
+
+            c05rv.run_riscv(ctx, thorough, only if ctx.only is not None else None)
         if part == "riscv":
             return
         if ctx.only is None:
@@ -490,6 +617,15 @@ class Engine:
             programs = directed_programs(ctx, bad, nvec) + irgen_programs(ctx, 200 if thorough else 10, bad, nvec) + \
                 pattern_programs(ctx, 500 if thorough else 20, bad, nvec, thorough=thorough)
         run_programs(ctx, programs, "C05", prepare_ir)
+        quick_exit()
+
+
+def quick_exit():
+    """The interpreter's final garbage collection over hundreds of compiled modules costs tens of seconds: park them."""
+    import gc
+
+    gc.collect()
+    gc.freeze()
 
 
 def run_programs(ctx, programs, prop, prepare, batch_cases=400, post=None):
@@ -528,539 +664,3 @@ def run_programs(ctx, programs, prop, prepare, batch_cases=400, post=None):
         account(ctx, part, res)
     return cases
 
-
-# ===================================================================================================
-# RISC-V part: riscv and riscv:rvc, decided through tla/RV32.tla (RV32_Run) and tla/IR.tla
-# ===================================================================================================
-RV_MARCHS = ("riscv", "riscv:rvc")
-RV_TYPES = ["i8", "u8", "i16", "u16", "i32", "u32"]
-RV_FUEL = 2500          # machine instructions per call (a run that needs more is not judged)
-RV_IR_CFG = """INIT Init
-NEXT Next
-CHECK_DEADLOCK FALSE
-INVARIANT ObsMatchesImpl
-INVARIANT TypeOK
-"""
-STUB_VALUE = 9
-
-
-def rv_probe_unsupported(ctx):
-    """elementary operations the riscv selectors reject (C29's findings), per variant; the union is rewritten"""
-    from ppci import api, ir
-    from ppci.binutils.debuginfo import DebugDb
-
-    bad = set()
-    per = {}
-    for march in RV_MARCHS:
-        arch = rvlink_mod().arch_of(march)
-        for t in RV_TYPES:
-            T = getattr(ir, t)
-            for kind, ops in (("binop", BINOPS), ("unop", ["-", "~"])):
-                for op in ops:
-                    m = ir.Module("probe", debug_db=DebugDb())
-                    f = ir.Function("f", ir.Binding.GLOBAL, T)
-                    m.add_function(f)
-                    e = ir.Block("f_entry")
-                    f.add_block(e)
-                    f.entry = e
-                    a = ir.Parameter("a", T)
-                    f.add_parameter(a)
-                    if kind == "binop":
-                        b = ir.Parameter("b", T)
-                        f.add_parameter(b)
-                        v = ir.Binop(a, op, b, "v", T)
-                    else:
-                        v = ir.Unop(op, a, "v", T)
-                    e.add_instruction(v)
-                    e.add_instruction(ir.Return(v))
-                    try:
-                        api.ir_to_object([m], arch)
-                    except Exception:
-                        bad.add((kind, op, t))
-                        per[march] = per.get(march, 0) + 1
-    ctx.cov["riscv_unselectable_elementary_ops"] = dict(per, union=len(bad))
-    return bad
-
-
-def rvlink_mod():
-    from harness import rvlink
-
-    return rvlink
-
-
-def module_types(pm):
-    """every type name a projected module mentions"""
-    out = set()
-    for f in pm["funcs"]:
-        out.add(f["ret"])
-        for q in f["params"]:
-            out.add(q["ty"])
-        for b in f["blocks"]:
-            for i in b["ins"]:
-                for k in ("ty", "aty"):
-                    if isinstance(i.get(k), str):
-                        out.add(i[k])
-    for g in pm["globals"]:
-        if g["k"] == "xfn":
-            out.update(g["args"])
-            out.add(g["ret"])
-    return out - {""}
-
-
-def rv_programs(ctx, bad, thorough):
-    from engines.c02 import int_vectors
-    from harness import absprog, irpatterns, optcorpus
-
-    nvec = 4 if thorough else 3
-    out = []
-    stub = [{"name": "ext_f", "rets": [project_ir.limbs(STUB_VALUE, 4)] * 64}, {"name": "ext_p", "rets": []}]
-    rng = random.Random("%d:c05:rv" % ctx.seed)
-    # directed: every elementary operation of every type (the operands come in as arguments, go through a global)
-    for t in RV_TYPES:
-        for kind, ops in (("binop", BINOPS), ("unop", ["-", "~"])):
-            for op in ops:
-                if (kind, op, t) in bad:
-                    continue
-
-                def make(t=t, kind=kind, op=op):
-                    from harness.irpatterns import B
-                    from ppci import ir
-
-                    b = B("f", t, [t, t])
-                    x, y = b.p
-                    T = getattr(ir, t)
-                    if op in ("/", "%"):
-                        y = b.bin(y, "|", b.c(1, t), t)
-                    if op in ("<<", ">>", "rol", "ror"):
-                        y = b.bin(y, "&", b.c(7, t), t)
-                    v = b.bin(x, op, y, t) if kind == "binop" else b.e(ir.Unop(op, x, b.nm("u"), T))
-                    b.ret(b.bin(v, "^", b.c(1, t), t))
-                    return b.m
-
-                key = "rvop.%s.%s.%s" % (kind, {"+": "add", "-": "sub", "*": "mul", "/": "div", "%": "rem", "|": "or", "&": "and",
-                                                 "^": "xor", "<<": "shl", ">>": "shr", "~": "not"}.get(op, op), t)
-                prng = random.Random(key)
-                out.append({"key": key, "make": make, "fn": "f", "vecs": int_vectors([t, t], prng, nvec + 2), "ext": [],
-                            "src": "engines/c05.py rv_programs: f(x, y) = (x %s y) ^ 1 on %s" % (op, t)})
-    # more arguments than argument registers; narrow arguments; a call chain through memory arguments
-    for n, t in ((8, "i32"), (9, "u8"), (7, "i16")):
-        def make(n=n, t=t):
-            from harness.irpatterns import B
-
-            b = B("f", t, [t] * n)
-            acc = b.c(0, t)
-            for k, q in enumerate(b.p):
-                acc = b.bin(b.bin(acc, "*", b.c(3, t), t), "+", b.bin(q, "^", b.c(k, t), t), t)
-            b.ret(acc)
-            return b.m
-
-        key = "rvargs.%d.%s" % (n, t)
-        out.append({"key": key, "make": make, "fn": "f", "vecs": int_vectors([t] * n, random.Random(key), nvec), "ext": [],
-                    "src": "engines/c05.py rv_programs: %d arguments of type %s (6 argument registers)" % (n, t)})
-    out += rv_directed(bad, nvec, thorough)
-    # patterns
-    pats = irpatterns.patterns(random.Random(rng.randrange(1 << 30)), thorough=thorough)
-    pats = [p for p in pats if all(t in RV_TYPES for t in p[3])]
-    import os
-    npat = int(os.environ.get("C05_NPAT", 400 if thorough else 24))
-    if npat < len(pats):
-        always = [p for p in pats if ":self_loop:" in p[0]][:4]
-        rest = [p for p in pats if p not in always]
-        pats = always + rng.sample(rest, max(0, npat - len(always)))
-    for key, mk, fn, ptys in pats:
-        def make(mk=mk):
-            m = mk()
-            restrict(m, bad)
-            return m
-
-        prng = random.Random(sum(ord(ch) * (k + 1) for k, ch in enumerate(key)))
-        out.append({"key": key.replace(":", "."), "make": make, "fn": fn, "vecs": int_vectors(ptys, prng, nvec), "ext": stub,
-                    "src": "harness/irpatterns.py pattern " + key})
-    # irgen
-    for _ in range(150 if thorough else 10):
-        seed = rng.randrange(1 << 30)
-
-        def make(seed=seed):
-            m, info = irgen.gen_module(random.Random(seed), types=RV_TYPES, budget=10)
-            restrict(m, bad)
-            return m
-
-        try:
-            _, info = irgen.gen_module(random.Random(seed), types=RV_TYPES, budget=10)
-        except Exception:
-            ctx.cov["irgen_failed"] = ctx.cov.get("irgen_failed", 0) + 1
-            continue
-        prng = random.Random(seed ^ 0x5EED)
-        out.append({"key": "rvir%d" % seed, "make": make, "fn": info["main"], "vecs": int_vectors(info["params"], prng, nvec), "ext": stub,
-                    "src": "harness/irgen.py gen_module(random.Random(%d), types=i8..u32, budget=10) with the operations riscv cannot "
-                           "select rewritten" % seed})
-    # C programs through ppci's front-end (the IR it produces for riscv is the reference)
-    for _ in range(60 if thorough else 4):
-        seed = rng.randrange(1 << 30)
-        prng = random.Random(seed)
-        gen = absprog.Gen(prng, max_funcs=2, max_stmts=5, max_depth=2, types=["c8", "u8", "i16", "u16", "i32", "u32"],
-                          features=absprog.DEFAULT_FEATURES - {"extern"})
-        prog = gen.program()
-        src = absprog.render_c(prog)
-
-        def make(src=src):
-            m = optcorpus.compile_c(src, "riscv")
-            restrict(m, bad)
-            return m
-
-        try:
-            make()
-        except Exception:
-            ctx.cov["c_frontend_rejected"] = ctx.cov.get("c_frontend_rejected", 0) + 1
-            continue
-        f, vecs = absprog.arg_vectors(prog, prng, nvec)
-        out.append({"key": "rvc%d" % seed, "make": make, "fn": f["n"], "vecs": vecs, "ext": [], "src": src})
-    return out
-
-
-OPNAME = {"+": "add", "-": "sub", "*": "mul", "/": "div", "%": "rem", "|": "or", "&": "and", "^": "xor", "<<": "shl", ">>": "shr",
-          "<": "lt", ">": "gt", "<=": "le", ">=": "ge", "==": "eq", "!=": "ne"}
-RV_CONSTS = [-0x80000000, -0x12345, -0x10000, -4097, -4096, -2049, -2048, -2047, -33, -32, -1, 0, 1, 31, 32, 2047, 2048, 2049,
-             4095, 4096, 0xFFFF, 0x10000, 0x1FFFF, 0x20000, 0x12345, 0x7FFFF800, 0x7FFFFFFF, 0xFFFFF800, 0xFFFFFFFF]
-
-
-def rv_directed(bad, nvec, thorough):
-    """directed modules for the places where a 32-bit register machine has to work for the narrow / wide values of IR:
-    constants at the edges of the immediate fields, shifts by constants, every cast pair observed at 32 bits, comparisons of
-    narrow values after an overflowing operation, narrow loads / stores, narrow values through calls"""
-    from engines.c02 import int_vectors
-    from harness.irpatterns import B
-
-    out = []
-
-    def add(key, make, ptys, src, extra=()):
-        prng = random.Random(key)
-        vecs = [list(v) for v in extra] + int_vectors(ptys, prng, nvec)
-        out.append({"key": key, "make": make, "fn": "f", "vecs": vecs, "ext": [], "src": "engines/c05.py rv_directed: " + src})
-
-    def edges(t):
-        b = BITS[t]
-        lo, hi = (-(1 << (b - 1)), (1 << (b - 1)) - 1) if t[0] == "i" else (0, (1 << b) - 1)
-        return [lo, hi, -1 if lo < 0 else hi - 1, hi // 2 + 1]
-
-    # constants: x op C and C op x, one module per constant C at the edges of the 6 / 12 / 20-bit immediates
-    consts = RV_CONSTS if thorough else [-0x80000000, -0x12345, -4096, -2049, -2048, -33, 31, 2047, 2048, 4096, 0x1FFFF, 0x20000,
-                                         0x7FFFF800, 0xFFFFFFFF]
-    for t in (("i32", "u32", "i16", "u8") if thorough else ("i32", "u32")):
-        for op in (("+", "-", "&", "|", "^") if thorough else ("+", "&", "^")):
-            if ("binop", op, t) in bad:
-                continue
-            for side in ("xc", "cx"):
-                for c in consts:
-                    cw = c & ((1 << BITS[t]) - 1) if t[0] == "u" else ((c + (1 << (BITS[t] - 1))) % (1 << BITS[t])) - (1 << (BITS[t] - 1))
-                    if cw != c and (BITS[t] == 32 and t[0] == "i" and c > 0x7FFFFFFF) is False and BITS[t] < 32:
-                        continue
-
-                    def make(t=t, op=op, side=side, c=c):
-                        b = B("f", t, [t])
-                        k = b.c(c, t)
-                        b.ret(b.bin(b.p[0], op, k, t) if side == "xc" else b.bin(k, op, b.p[0], t))
-                        return b.m
-
-                    add("rvconst.%s.%s.%s.%s" % (t, OPNAME[op], side, ("m%x" % -c) if c < 0 else "%x" % c), make, [t],
-                        "x %s %#x (%s) on %s" % (op, c, side, t), [[e] for e in edges(t)[:2]])
-    # shifts with a constant operand, either side
-    for t in RV_TYPES:
-        for op in ("<<", ">>"):
-            if ("binop", op, t) in bad:
-                continue
-            for side in ("xc", "cx"):
-                for c in ((0, 1, 3, 7) if BITS[t] == 8 else (0, 1, 7, 15) if BITS[t] == 16 else (0, 1, 7, 15, 16, 31)):
-                    if side == "cx" and c in (0, 16):
-                        continue
-
-                    def make(t=t, op=op, side=side, c=c):
-                        b = B("f", t, [t])
-                        x = b.p[0]
-                        if side == "cx":
-                            x = b.bin(x, "&", b.c(BITS[t] - 1, t), t)
-                            v = b.bin(b.c(c if c < 16 else 0x41, t), op, x, t)
-                        else:
-                            v = b.bin(x, op, b.c(c, t), t)
-                        b.ret(v)
-                        return b.m
-
-                    add("rvshc.%s.%s.%s.%d" % (t, OPNAME[op], side, c), make, [t], "%s with constant operand %d (%s)" % (op, c, side),
-                        [[e] for e in edges(t)])
-    # casts: every pair, observed through a 32-bit result
-    for t in RV_TYPES:
-        for t2 in RV_TYPES:
-            if t == t2:
-                continue
-            for wide in ("i32", "u32"):
-                def make(t=t, t2=t2, wide=wide):
-                    b = B("f", wide, [t])
-                    v = b.cast(b.p[0], t2)
-                    b.ret(v if t2 == wide else b.cast(v, wide))
-                    return b.m
-
-                add("rvcast.%s.%s.%s" % (t, t2, wide), make, [t], "(%s)(%s)x for x of type %s" % (wide, t2, t), [[e] for e in edges(t)])
-    # comparisons of narrow values that went through an overflowing operation
-    for t in ("i8", "u8", "i16", "u16"):
-        for op in ("+", "-", "*"):
-            if ("binop", op, t) in bad:
-                continue
-            for cond in ("<", ">", "<=", ">=", "==", "!="):
-                def make(t=t, op=op, cond=cond):
-                    b = B("f", "i32", [t, t])
-                    x, y = b.p
-                    yes, no = b.block("yes"), b.block("no")
-                    s = b.bin(x, op, y, t)
-                    b.cj(s, cond, y, yes, no)
-                    b.at(yes).ret(b.c(1, "i32"))
-                    b.at(no).ret(b.c(2, "i32"))
-                    return b.m
-
-                e = edges(t)
-                add("rvcmp.%s.%s.%s" % (t, OPNAME[op], OPNAME[cond]), make, [t, t], "(x %s y) %s y on %s" % (op, cond, t),
-                    [[e[0], e[2]], [e[1], 1], [e[1], e[1]], [e[3], e[3]], [7, e[1]]])
-    # narrow values in memory and through calls
-    for t in ("i8", "u8", "i16", "u16", "i32"):
-        def make(t=t):
-            from ppci import ir
-
-            b = B("f", "i32", [t, t])
-            x, y = b.p
-            sz = BITS[t] // 8
-            g = b.glob("g", 4 * sz, bytes([0x80 + k for k in range(4 * sz)]))
-            p0 = b.e(ir.AddressOf(g, b.nm("gp")))
-            old = b.load(b.off(p0, 2 * sz), t)
-            b.store(x, b.off(p0, sz))
-            b.store(b.bin(y, "+", old, t), b.off(p0, 3 * sz))
-            r = b.bin(b.cast(b.load(b.off(p0, sz), t), "i32"), "+", b.cast(b.load(b.off(p0, 3 * sz), t), "i32"), "i32")
-            b.ret(b.bin(r, "^", b.cast(old, "i32"), "i32"))
-            return b.m
-
-        add("rvmem.%s" % t, make, [t, t], "narrow stores / loads of a global array of %s, widened to i32" % t,
-            [[edges(t)[0], edges(t)[1]], [edges(t)[2], 1]])
-
-        def make2(t=t):
-            from ppci import ir
-
-            b = B("h", t, [t, t])
-            b.ret(b.bin(b.p[0], "+", b.p[1], t))
-            h = b.f
-            b2 = B("f", "i32", [t, t], module=b.m)
-            r = b2.e(ir.FunctionCall(h, [b2.p[0], b2.p[1]], b2.nm("call"), getattr(ir, t)))
-            r2 = b2.e(ir.FunctionCall(h, [r, b2.p[1]], b2.nm("call"), getattr(ir, t)))
-            b2.ret(b2.cast(r2, "i32"))
-            return b2.m
-
-        add("rvcall.%s" % t, make2, [t, t], "h(h(x, y), y) with h(a, b) = a + b on %s, widened to i32" % t,
-            [[edges(t)[1], 1], [edges(t)[0], edges(t)[2]]])
-    return out
-
-
-def rv_stub_object(march, pm):
-    """external functions as assembled stubs: return STUB_VALUE (procedures: return)"""
-    rl = rvlink_mod()
-    names = [g for g in pm["globals"] if g["k"] == "xfn"]
-    if not names:
-        return None
-    lines = []
-    for g in names:
-        lines += ["global %s" % g["name"], "%s:" % g["name"]]
-        if g["ret"]:
-            lines.append("addi x10, x0, %d" % STUB_VALUE)
-        lines.append("jalr x0, x1, 0")
-    return rl.build_object(march, ["section code"] + lines)
-
-
-def rv_prepare(ctx, programs, levels=LEVELS):
-    """compile every program for both variants at every level, link, project the image; variants whose images are
-    byte-identical share one execution"""
-    from ppci import api
-
-    rl = rvlink_mod()
-    ready = []
-    for p in programs:
-        try:
-            pm = project_ir.project_module(p["make"](), 4)
-        except Exception:
-            ctx.cov["rv_build_failed"] = ctx.cov.get("rv_build_failed", 0) + 1
-            continue
-        if not module_types(pm) <= set(RV_TYPES) | {"ptr"}:
-            ctx.cov["rv_skipped_types"] = ctx.cov.get("rv_skipped_types", 0) + 1
-            continue
-        f = [x for x in pm["funcs"] if x["name"] == p["fn"]]
-        if not f or not f[0]["ret"] or any(q["ty"] not in RV_TYPES for q in f[0]["params"]) or any(g["k"] == "xvar" for g in pm["globals"]):
-            ctx.cov["rv_skipped_signature"] = ctx.cov.get("rv_skipped_signature", 0) + 1
-            continue
-        ptys = [q["ty"] for q in f[0]["params"]]
-        vecs = [v for v in p["vecs"] if len(v) == len(ptys)]
-        if not vecs:
-            continue
-        globs = [(g["name"], g["size"]) for g in pm["globals"] if g["k"] == "var"]
-        images, variants = {}, []
-        for march in RV_MARCHS:
-            for lv in levels:
-                label = "%s-O%s" % (march.replace(":", "+"), lv)
-                try:
-                    def work(march=march, lv=lv):
-                        m = p["make"]()
-                        if lv != "0":
-                            api.optimize(m, level=lv)
-                        return api.ir_to_object([m], rl.arch_of(march))
-
-                    obj = native.limited(work, native.COMPILE_LIMIT_S, "riscv codegen")
-                except Exception as e:      # the back-end (or the optimiser) raised: C29 / C28's business, counted
-                    k = "rv_skipped_codegen_" + type(e).__name__
-                    ctx.cov[k] = ctx.cov.get(k, 0) + 1
-                    continue
-                try:
-                    stub = rv_stub_object(march, pm)
-                    linked = rl.link_objects([obj] + ([stub] if stub is not None else []), rl.LAYOUT_SPLIT)
-                    img = rl.image_of(linked, p["fn"], globs)
-                except Exception as e:
-                    variants.append((label, None, "error:link:" + type(e).__name__))
-                    continue
-                if img is None or rl.images_overlap(img):
-                    variants.append((label, None, "error:image"))
-                    continue
-                h = native.digest(repr((img["segs"], img["entry"])).encode())
-                images.setdefault(h, img)
-                variants.append((label, h, None))
-        if not variants:
-            continue
-        ready.append({"p": p, "pm": pm, "ptys": ptys, "ret": f[0]["ret"], "vecs": vecs, "globs": globs, "images": images,
-                      "variants": variants})
-    return ready
-
-
-def rv_micro(ctx):
-    """M: RV32_Run on hand-written images whose results are known (loader, call wrapper, observation)"""
-    rl = rvlink_mod()
-    L = rl.limbs
-    cases = []
-    src = ["global main", "global g", "section code", "main:", "add x10, x12, x13", "la x7, g", "lw x6, 0(x7)", "add x10, x10, x6",
-           "sw x10, 0(x7)", "lw x5, 0(x2)", "add x10, x10, x5", "jalr x0, x1, 0", "section data", "g:", "dd 0x11223344"]
-    for march in RV_MARCHS:
-        obj = rl.build_object(march, src)
-        img = rl.image_of(rl.link_objects([obj], rl.LAYOUT_SPLIT), "main", [("g", 4)])
-        calls = [{"regs": [[12, L(5)], [13, L(7)]], "stk": [[0, L(100)]]}, {"regs": [[12, L(-1)], [13, L(2)]], "stk": [[0, L(0)]]}]
-        cases.append({"id": "micro-" + march, "imgs": [img], "calls": calls, "sp": rl.SP, "ra": rl.RA, "keep": rl.keep_regs(march),
-                      "fuel": 50, "expect": {"status": "ok", "a0": [L(0x11223344 + 112), L(0x11223345)],
-                                             "globals": [[{"name": "g", "bytes": L(0x11223344 + 12)}], [{"name": "g", "bytes": L(0x11223345)}]]}})
-    # an endless loop ends "fuel", a jump out of the image "fault", a CSR access "outofmodel"
-    for name, body, st in (("loop", ["main:", "beq x0, x0, main"], "fuel"), ("wild", ["main:", "jalr x0, x0, 64"], "fault"),
-                           ("trap", ["main:", "ebreak"], "outofmodel")):
-        obj = rl.build_object("riscv", ["global main", "section code"] + body)
-        img = rl.image_of(rl.link_objects([obj], "MEMORY flash LOCATION=0x1000 SIZE=0x100 { SECTION(code) }\n"), "main", [])
-        cases.append({"id": "micro-" + name, "imgs": [img], "calls": [{"regs": [], "stk": []}], "sp": rl.SP, "ra": rl.RA, "keep": [],
-                      "fuel": 40, "expect": {"status": st, "a0": [[]], "globals": [[]]}})
-    res, _ = rl.run_images(ctx, cases, "M: RV32_Run on hand-written images", emit=False,
-                           invariants=("AsExpected", "ConventionKept", "TypeOK"), workers=2)
-    for e in res.errors:
-        raise MachineryError("RV32_Run self-check fails: %s %s" % (e, e.text[:1500]))
-    ctx.cov["rv_micro_images"] = len(cases)
-
-
-def run_riscv(ctx, thorough, only=None):
-    import os
-
-    rl = rvlink_mod()
-    ctx.assume("tla/RV32.tla is the meaning of RV32IMC machine code (C08 validates ppci's encodings against it, RV32_MC its own "
-               "laws); misaligned data accesses are performed byte-wise; the calling convention is the one ppci's RiscvArch "
-               "declares (arguments x12..x17 then memory at sp, result x10, callee-saved x8 x9 x18..x27, sp)")
-    ctx.assume("harness/rvlink.py copies the linked sections, symbol addresses and ppci's argument locations faithfully; an "
-               "integer argument narrower than a register is passed as its own sign / zero extension; results are compared on "
-               "the bytes of the IR return type")
-    if only is None:
-        rv_micro(ctx)
-    bad = rv_probe_unsupported(ctx)
-    programs = rv_programs(ctx, bad, thorough)
-    if only is not None:
-        programs = [p for p in programs if p["key"] == only]
-    ctx.cov["rv_programs_generated"] = len(programs)
-    ready = rv_prepare(ctx, programs)
-    ctx.cov["rv_programs_compiled"] = len(ready)
-    # ---- run 1: the machine side
-    cases, meta = [], []
-    for r in ready:
-        for h, img in r["images"].items():
-            cases.append({"id": r["p"]["key"], "imgs": [img], "sp": rl.SP, "ra": rl.RA, "keep": rl.keep_regs("riscv"), "fuel": RV_FUEL,
-                          "calls": [rl.call_record("riscv", r["ptys"], v) for v in r["vecs"]]})
-            meta.append((r, h))
-    ctx.cov["rv_distinct_images_executed"] = len(cases)
-    observed = {}
-    steps = []
-    for b0 in range(0, len(cases), 600):
-        res, obs = rl.run_images(ctx, cases[b0:b0 + 600], "RV32.tla executes the linked images (%d)" % (b0 // 600), emit=True,
-                                 invariants=("TypeOK",))
-        for e in res.errors:
-            raise MachineryError("unexpected TLC error in the RV32_Run run: %s\n%s" % (e, e.text[:1500]))
-        for (ci, av, im), (o, n) in obs.items():
-            r, h = meta[b0 + ci - 1]
-            observed[(id(r), h, av)] = (o, n)
-            steps.append(n)
-    if steps:
-        ctx.cov["rv_machine_instructions_executed"] = sum(steps)
-        ctx.cov["rv_max_instructions_per_call"] = max(steps)
-    # ---- run 2: the IR side judges.  One IR.tla case per (program, vector, distinct observation)
-    TYB = {t: int(t[1:]) // 8 for t in RV_TYPES}
-    ir_cases, ir_meta = [], []
-    skipped = {}
-    for r in ready:
-        for vi, vec in enumerate(r["vecs"]):
-            groups = {}
-            for label, h, err in r["variants"]:
-                if err is not None:
-                    ob = {"outcome": err, "ret": [], "globals": [], "hascalls": False, "calls": []}
-                else:
-                    got = observed.get((id(r), h, vi + 1))
-                    if got is None:
-                        raise MachineryError("no observation for %s %s vector %d" % (r["p"]["key"], label, vi + 1))
-                    o, n = got
-                    st = o["status"]
-                    if st in ("fuel", "outofmodel"):
-                        skipped[st] = skipped.get(st, 0) + 1
-                        continue
-                    if st == "ok" and not o["kept"]:
-                        st = "convention-not-kept"
-                    ob = {"outcome": "ok" if st == "ok" else "error:" + st,
-                          "ret": list(o["a0"][:TYB[r["ret"]]]) if st == "ok" else [],
-                          "globals": [{"name": g["name"], "bytes": list(g["bytes"])} for g in o["globals"]] if st == "ok" else [],
-                          "hascalls": False, "calls": []}
-                groups.setdefault(repr(ob), (ob, []))[1].append(label)
-            for ob, labels in groups.values():
-                ir_cases.append({"id": "%s@%d" % (r["p"]["key"], vi), "mods": [r["pm"]], "fn": r["p"]["fn"],
-                                 "argv": [[project_ir.limbs(v, TYB[t]) for v, t in zip(vec, r["ptys"])]],
-                                 "ext": r["p"]["ext"], "fuel": 3000, "obs": ob})
-                ir_meta.append((r, vec, labels, ob))
-                ctx.count(None, n=len(labels))
-    ctx.cov["rv_skipped_machine_side"] = skipped
-    for r, vec, labels, ob in ir_meta[:3]:
-        ctx.sample({"program": r["p"]["key"], "args": vec, "variants": labels, "observed": ob["outcome"], "x10": ob["ret"]})
-    judged = 0
-    for b0 in range(0, len(ir_cases), 1500):
-        part = ir_cases[b0:b0 + 1500]
-        path = ctx.trace_file(part)
-        res2 = ctx.tlc("IR", RV_IR_CFG, label="IR.tla judges the riscv observations (%d)" % (b0 // 1500), env={"TRACE_FILE": path},
-                       continue_=True, workers=WORKERS, heap="8g")
-        os.unlink(path)
-        acts = {k.split(".")[-1]: v for k, v in core.tlcmod.action_coverage(res2).items()}
-        seen = set()
-        for e in res2.errors:
-            st = e.last
-            i = st.get("i")
-            if e.kind != "invariant" or e.name != "ObsMatchesImpl" or not isinstance(i, int) or not 1 <= i <= len(part):
-                raise MachineryError("unexpected TLC error in the IR run: %s\n%s" % (e, e.text[:1500]))
-            r, vec, labels, ob = ir_meta[b0 + i - 1]
-            for lab in labels:
-                key = "C05:%s:%s" % (r["p"]["key"], lab)
-                if key in seen:
-                    continue
-                seen.add(key)
-                ctx.violation(key, "%s(%s) [%s]: the linked image executed by RV32.tla ends %s with x10=%s globals=%s; the IR prescribes ret=%s" % (
-                    r["p"]["fn"], ", ".join(map(str, vec)), lab, ob["outcome"], ob["ret"],
-                    {g["name"]: bytes(g["bytes"]).hex() for g in ob["globals"]}, st.get("ret")),
-                    {"program": r["p"]["key"], "part": "riscv", "source": r["p"]["src"][:6000], "args": vec, "variant": lab,
-                     "observed": ob, "ir_state": {x: st.get(x) for x in ("status", "ret")}})
-        judged += len(part)
-    ctx.cov["traces_validated_against_impl"] += judged
-    ctx.cov["distinct_nontrivial"] += sum(len(m[2]) for m in ir_meta)
